@@ -203,13 +203,7 @@ def run(scn):
             aioloop.install()
             loop = aioloop.SimLoop()
             loop.set_exception_handler(lambda lp, ctx: None)
-            orig_log = child._log
-
-            def logged(s_, direction):
-                if direction == 'read':
-                    child.chunks.append(s_)
-                return orig_log(s_, direction)
-            child._log = logged
+            harness.tap_reads(child, child.chunks.append)
             child._rec_via_log = True
 
             async def adrain():
